@@ -142,6 +142,9 @@ def arg_code(atom, n, v):
         return [], [], [fstr(v)], []
     if isinstance(atom, A.CStrOut):
         return ["character(len=%d) :: %s" % (v, z)], [], [z], ["call obs_s(%s)" % z]
+    if isinstance(atom, A.CStrInoutLen):
+        text, ln = v
+        return ["character(len=%d) :: %s" % (ln, z)], ["%s = %s" % (z, fstr(text))], [z], ["call obs_s(%s)" % z]
     if isinstance(atom, A.CStrInout):
         return ["character(len=%d) :: %s" % (len(v), z)], ["%s = %s" % (z, fstr(v))], [z], ["call obs_s(%s)" % z]
     if isinstance(atom, A.StrOut):
